@@ -191,9 +191,11 @@ namespace embedded_pairing::wkdibe {
         int x = 0; /* Index for reading from sk.b */
         for (int i = 0; x != sk.l && i != params.l; i++) {
             if (k != attrs.length && attrs.attrs[k].idx == i) {
-                if (sk.b[x].idx == i && !attrs.attrs[k].omitFromKeys) {
-                    temp.multiply(sk.b[x].hexp, attrs.attrs[k].id);
-                    qualified.a0.add(qualified.a0, temp);
+                if (sk.b[x].idx == i) {
+                    if (!attrs.attrs[k].omitFromKeys) {
+                        temp.multiply(sk.b[x].hexp, attrs.attrs[k].id);
+                        qualified.a0.add(qualified.a0, temp);
+                    }
                     x++;
                 }
                 k++;
